@@ -377,11 +377,7 @@ class atom(boolean.AndRestriction):
 
         if self.fullver is not None:
             if self.op == "=*":
-                r.append(
-                    packages.PackageRestriction(
-                        "fullver", values.StrGlobMatch(self.fullver)
-                    )
-                )
+                r.append(restricts.VersionGlobMatch(self.fullver))
             else:
                 r.append(
                     restricts.VersionMatch(
